@@ -149,6 +149,77 @@ def job_fields(ctx, mode, form, tkind, zkind, ranges=None, K=C.KWIDE, pins=None)
 DEC_FRACTIONS = [0.5, 0.25, 0.0, 0.984375]      # dyadic: exact in the rational proxy
 
 
+TRUNC_FORMS = [["day_of_week"], ["week_of_year", "day_of_week"], ["week_of_year"], ["day_of_month"], ["month_of_year", "day_of_month"],
+               ["month_of_year"], ["day_of_year"], ["hour_of_day"], ["hour_of_day", "minute_of_hour"], ["minute_of_hour"],
+               ["minute_of_hour", "second_of_minute"], ["second_of_minute"], ["day_of_week", "hour_of_day"],
+               ["day_of_month", "hour_of_day", "minute_of_hour", "second_of_minute"],
+               ["day_of_week", "time_zone_hour", "time_zone_minute"], ["hour_of_day", "time_zone_hour", "time_zone_minute"]]
+GREG_LEAP_MONTHS = [31, 29, 31, 30, 31, 30, 31, 31, 30, 31, 30, 31]
+
+
+def trunc_valid(ops, kw):
+    """validity of the fields of a truncated (year-less) point, Gregorian calendar: each named field is in the
+    range it can take in some year (month 1-12, day within the month's longest length - 31 when no month is named,
+    day-of-year 1-366, week 1-53, weekday 1-7, time of day and zone as for full points)"""
+    g = kw.get
+    cs = []
+    if "month_of_year" in kw:
+        cs.append(ops.And(g("month_of_year") >= 1, g("month_of_year") <= 12))
+    if "day_of_month" in kw:
+        d = g("day_of_month")
+        if "month_of_year" in kw:
+            m = g("month_of_year")
+            cs.append(ops.And(d >= 1, ops.Or(*[ops.And(m == k + 1, d <= n) for k, n in enumerate(GREG_LEAP_MONTHS)])))
+        else:
+            cs.append(ops.And(d >= 1, d <= 31))
+    if "day_of_year" in kw:
+        cs.append(ops.And(g("day_of_year") >= 1, g("day_of_year") <= 366))
+    if "week_of_year" in kw:
+        cs.append(ops.And(g("week_of_year") >= 1, g("week_of_year") <= 53))
+    if "day_of_week" in kw:
+        cs.append(ops.And(g("day_of_week") >= 1, g("day_of_week") <= 7))
+    cs.append(R.valid_time(ops, g("hour_of_day", 0), g("minute_of_hour", 0), g("second_of_minute", 0), allow24=True))
+    cs.append(R.valid_tz(ops, g("time_zone_hour", 0), g("time_zone_minute", 0)))
+    return ops.And(*cs)
+
+
+def job_fields_truncated(ctx, names):
+    """the constructor on truncated (year-less) points: accepted <=> every named field is in range"""
+    data = ctx.data
+    C.set_mode(data, "gregorian")
+
+    def make(e):
+        return {n: e.var(SHORT[n], *WIN[n]) for n in names}
+
+    def body(i):
+        return data.TimePoint(truncated=True, **i)
+
+    def post(i, out):
+        valid = core.zbool(trunc_valid(M, i))[0]
+        if out[0] == "exc":
+            exc = out[1]
+            obs = [("refusal is a ValueError subclass", isinstance(exc, ValueError))]
+            if isinstance(exc, ValueError):
+                obs.append(("every in-range combination is accepted", z3.Not(valid)))
+            return obs
+        p = out[1]
+        same = []
+        for n in names:
+            got = getattr(p._time_zone, "_hours" if n.endswith("hour") else "_minutes") if n.startswith("time_zone") else getattr(p, "_" + n)
+            same.append(L(got) == L(i[n]) if got is not None else z3.BoolVal(False))
+        return [("no impossible field is admitted in a truncated point", valid),
+                ("accepted truncated point carries the given values", z3.And(same)),
+                ("it is a truncated point", bool(p._truncated))]
+
+    def case_of(v, i):
+        return {"check": "fields-truncated", "mode": "gregorian", "kw": {n: v[SHORT[n]] for n in names}}
+
+    return sym_run("fields-truncated[%s]" % ",".join(names), make, None, body, post, case_of,
+                   scenarios_z3=lambda i: ({"truncated: weekday 8": L(i["day_of_week"]) == 8, "truncated: weekday 0": L(i["day_of_week"]) == 0}
+                                           if "day_of_week" in i else {}),
+                   bounds={"fields": names, "windows": {n: WIN[n] for n in names}})
+
+
 def job_fields_decimal(ctx, mode, unit, frac):
     """the decimal forms: hour / minute / second given as an integer plus a (concrete) fraction; the integer parts
     are symbolic in their windows.  24:00 is the end of the day only with zero minutes, seconds and fractions."""
@@ -344,6 +415,16 @@ def replay(case, M_):
                 return True, "TimeZone(%s, %s) raised %s (not a ValueError)" % (case["h"], case["m"], type(exc).__name__)
             return got != exp, "TimeZone(%s, %s) accepted=%s, valid=%s" % (case["h"], case["m"], got, exp)
         kw = case["kw"]
+        if case["check"] == "fields-truncated":
+            exp = bool(trunc_valid(R.PyOps, kw))
+            try:
+                data.TimePoint(truncated=True, **kw)
+                got = True
+            except ValueError:
+                got = False
+            except Exception as exc:
+                return True, "TimePoint(truncated=True, %s) raised %s: %s (not a ValueError)" % (kw, type(exc).__name__, exc)
+            return got != exp, "TimePoint(truncated=True, %s) accepted=%s but the fields are %s" % (kw, got, "in range" if exp else "impossible")
         if case["check"] == "fields-decimal":
             f = [kw.get(k) or 0 for k in ("hour_of_day_decimal", "minute_of_hour_decimal", "second_of_minute_decimal")]
             h, mi, se = kw["hour_of_day"], kw.get("minute_of_hour", 0), kw.get("second_of_minute", 0)
@@ -407,6 +488,8 @@ def jobs(tier):
                 if kind == "recurrence" and t.count("Z") == 2 and w > 1 and not th:
                     continue        # start/second-point template: each path subtracts two symbolic points (slow)
                 J.append(("job_garbage", dict(kind=kind, template=t, npos=w, cfg=cfg)))
+    for names in TRUNC_FORMS:
+        J.append(("job_fields_truncated", dict(names=names)))
     return J
 
 
@@ -427,10 +510,10 @@ INFO = {
                 "expressions with every window of 1-3 consecutive characters replaced by symbolic printable-ASCII characters are decided; "
                 "non-ASCII characters (e.g. non-ASCII digits) and longer splices are outside",
                 "the numeric value of floats converted from garbage text (only whether float() accepts the text is decided)",
-                "non-integer field values; decimal fractions other than the four listed", "truncated points"],
+                "non-integer field values; decimal fractions other than the four listed", "truncated points other than the constructor's field clause (16 field combinations, Gregorian calendar)"],
     "assumptions": ["get_days_in_year_range runs as its closed form (C03)"],
 }
 NEEDS_STRING_VALIDATION = True
 REQUIRED_SCENARIOS = {"all": ["decimal field", "24 with a fraction", "garbage:timepoint", "garbage:duration", "garbage:recurrence", "mutated template", "fully symbolic text", "month 0", "month 13", "30 feb", "29 feb", "31st", "day 366", "day 0", "week 53", "weekday 8",
                               "24:00:00", "24:01", "second 60", "zone parts of conflicting sign", "zone -00:30", "year 0",
-                              "timezone ctor"]}
+                              "timezone ctor", "truncated: weekday 8", "truncated: weekday 0"]}
